@@ -1,6 +1,6 @@
 (** PRE-FIX model (kept for the refutation lemmas only): relay_table.go and the
-    relay dispatcher as they were before fix commits 22f571e (UDP/ICMP cleanup
-    on disconnect) and 64b5c0c (indices keyed by (peer, id)).
+    relay dispatcher as they were before fix commits c4b0fba (UDP/ICMP cleanup
+    on disconnect) and 1a293bf (indices keyed by (peer, id)).
 
     A [table] is the pair of Go maps byUpstream / byDownstream, keyed by the
     BARE stream id as in the code.  Maps are association lists with map
